@@ -18,7 +18,7 @@ ASSUMPTIONS = [
     "trees whose cost predictor exceeds the budget for the unchanged implementation are resampled, not judged",
     "divisors beyond 1..72 are sampled, not enumerated",
 ]
-MIN_MONITORS = {"mod": 200000, "minmax": 10000, "expand": 3000, "operand": 20000, "str": 10000, "aligned": 20000}
+MIN_MONITORS = {"mod": 200000, "minmax": 10000, "expand": 3000, "operand": 20000, "str": 10000, "aligned": 20000, "deep-chain": 1000}
 THOROUGH_MIN_SCALE = 8
 
 SMALL_DIVS = list(range(1, 73))
@@ -27,8 +27,8 @@ L_DIVS = list(range(1, 17)) + [24, 32, 48, 64]
 
 def plan(tier):
     if tier == "quick":
-        return {"shards": 16, "params": {"n_small": 16000, "n_large": 8000, "time_cap_s": 240}}
-    return {"shards": 16, "params": {"n_small": 200000, "n_large": 100000, "time_cap_s": 1500}, "hard_timeout_s": 3000}
+        return {"shards": 16, "params": {"n_small": 16000, "n_large": 8000, "n_chains": 1600, "time_cap_s": 240}}
+    return {"shards": 16, "params": {"n_small": 200000, "n_large": 100000, "n_chains": 20000, "time_cap_s": 1500}, "hard_timeout_s": 3000}
 
 
 def _cmp(ctx, case, mech, what, got, exp):
@@ -183,8 +183,89 @@ def _gen_case(ctx, rng, cls):
     return None
 
 
+PRIMES = [2, 3, 5, 7, 11, 13, 17, 19, 23, 29, 31, 37, 41, 43, 47, 53, 59, 61, 67, 71, 73, 79, 83, 89, 97, 101, 103, 107, 109, 113]
+# Logical steps allowed for a chain of n operators: measured on the unchanged tree <= 820 * n**2 (the per-level cost grows slowly
+# with n because pydsdl's own validate_numerically re-queries 64 divisors at every level of an expansion); 6x-17x head room.
+# A cost that doubles per level (2**n) exceeds this from n = 16 on.
+def chain_budget(n: int) -> int:
+    return 5000 * n * n + 200000
+
+
+def chain_case(ctx, pydsdl, rng, mon, depth=None, seed=None):
+    """
+    A deep, narrow expression: `depth` operators applied one on top of the other (padding with pairwise coprime or random
+    alignments, + leaf, | leaf, repeat 1..2) over a one-element set.  The sets stay tiny, so the oracle is the explicit
+    expansion; the cost of answering min / max / % d / iteration must stay polynomial (about quadratic) in the depth (the logical-step meter of
+    M-enum: PY_START + JUMP events in pydsdl code), whatever divisors the padding operators ask their operands for.
+    """
+    from pv.mon.symbolic import BudgetExceeded
+
+    seed = rng.randrange(1 << 40) if seed is None else seed
+    r = __import__("random").Random(seed)
+    depth = depth or r.choice([8, 16, 24, 32, 48, 64])
+    style = r.choice(["coprime-pads", "coprime-pads", "mixed", "pads-1-64"])
+    primes = PRIMES[:]
+    r.shuffle(primes)
+    tree = ("leaf", (r.randrange(0, 40),))
+    for lv in range(depth):
+        op = "pad" if style == "coprime-pads" else r.choice(["pad", "pad", "plus", "plus", "union", "repeat"])
+        if style == "pads-1-64":
+            op = r.choice(["pad", "plus"])
+        if op == "pad":
+            a = primes[lv % len(primes)] if style != "pads-1-64" else r.randrange(1, 65)
+            cand = ("pad", tree, a)
+        elif op == "plus":
+            cand = ("concat", (tree, ("leaf", (r.randrange(0, 9),))))
+        elif op == "union":
+            cand = ("union", (tree, ("leaf", (R.ref_min(tree) + r.randrange(0, 5),))))
+        else:
+            cand = ("repeat", tree, r.choice([1, 1, 2]))
+        try:
+            if R.ref_max(cand) > 200000 or len(R.ref_expand(cand)) > 48:
+                cand = ("pad", tree, primes[lv % len(primes)])
+        except R.TooBig:
+            cand = ("pad", tree, primes[lv % len(primes)])
+        tree = cand
+    case = {"chain": seed, "depth": depth, "style": style}
+    expansion = R.ref_expand(tree)
+    divs = [1, 2, 3, 7, 8, 16, 30, 32, 64, r.randrange(2, 1000)]
+    obj, _actual = G.Builder(pydsdl.BitLengthSet, __import__("random").Random(seed)).build(tree)
+    mon.reset()
+    mon.step_budget = chain_budget(depth)
+    mon.steps_on()
+    try:
+        ctx.mon("deep-chain")
+        got = {"min": obj.min, "max": obj.max, "mods": {d: set(obj % d) for d in divs}, "aligned": obj.is_aligned_at_byte(), "iter": set(obj)}
+    except BudgetExceeded:
+        mon.steps_off()
+        ctx.violation("C01/cost-exponential-in-depth", "no answer within %d logical steps for a chain of %d operators over a %d-element set (%s): %s" % (
+            mon.step_budget, depth, len(expansion), style, R.render(tree)[:300]), case)
+        return
+    finally:
+        mon.steps_off()
+    ctx.notes["deep_chain_max_steps_over_depth_squared"] = max(ctx.notes.get("deep_chain_max_steps_over_depth_squared", 0), mon.steps // (depth * depth))
+    exp = {"min": min(expansion), "max": max(expansion), "mods": {d: {x % d for x in expansion} for d in divs},
+           "aligned": all(x % 8 == 0 for x in expansion), "iter": set(expansion)}
+    if got != exp:
+        bad = [k for k in exp if got[k] != exp[k]]
+        ctx.violation("C01/deep-chain", "%s differ for %s" % (bad, R.render(tree)[:400]), case)
+    ctx.case(("chain", seed), True, classes=["deep-chain-" + style, "deep-chain-depth-%d" % depth])
+
+
 def run_shard(ctx):
     pydsdl = import_pydsdl()
+    from pv.core import repo_root
+    from pv.mon.symbolic import SymbolicMonitor
+
+    mon = SymbolicMonitor(pydsdl, repo_root() / "pydsdl")
+    for _ in range(ctx.share(ctx.params.get("n_chains", 0))):
+        if ctx.out_of_time():
+            break
+        try:
+            with ctx.watchdog(120):
+                chain_case(ctx, pydsdl, ctx.rng, mon)
+        except CaseTimeout:
+            ctx.inconclusive_case("watchdog (deep chain)")
     n_small = ctx.share(ctx.params["n_small"])
     n_large = ctx.share(ctx.params["n_large"])
     rng = ctx.rng
@@ -217,6 +298,12 @@ def run_shard(ctx):
 
 def replay(ctx, case):
     pydsdl = import_pydsdl()
+    if "chain" in case:
+        from pv.core import repo_root
+        from pv.mon.symbolic import SymbolicMonitor
+
+        chain_case(ctx, pydsdl, ctx.rng, SymbolicMonitor(pydsdl, repo_root() / "pydsdl"), case["depth"], case["chain"])
+        return
     tree = totuple(case["tree"])
     try:
         check_tree(ctx, pydsdl, tree, case["cls"], case["divs"], case["order_seed"], case["spell_seed"])
